@@ -566,6 +566,9 @@ func (rl *Shell) viChangeTo() {
 		// Since we must emulate the default readline behavior,
 		// we vary our behavior depending on the caller key.
 		keys := rl.Keys.Caller()
+		if len(keys) == 0 {
+			return
+		}
 
 		switch keys[0] {
 		case 'c':
@@ -618,6 +621,9 @@ func (rl *Shell) viDeleteTo() {
 		// Since we must emulate the default readline behavior,
 		// we vary our behavior depending on the caller key.
 		keys := rl.Keys.Caller()
+		if len(keys) == 0 {
+			return
+		}
 
 		switch keys[0] {
 		case 'd':
@@ -743,6 +749,9 @@ func (rl *Shell) viSubstitute() {
 		// Since we must emulate the default readline behavior,
 		// we vary our behavior depending on the caller key.
 		keys := rl.Keys.Caller()
+		if len(keys) == 0 {
+			return
+		}
 
 		switch keys[0] {
 		case 's':
@@ -977,6 +986,9 @@ func (rl *Shell) viYankTo() {
 		// Since we must emulate the default readline behavior,
 		// we vary our behavior depending on the caller key.
 		keys := rl.Keys.Caller()
+		if len(keys) == 0 {
+			return
+		}
 
 		switch keys[0] {
 		case 'y':
@@ -1039,6 +1051,9 @@ func (rl *Shell) viKillLine() {
 // Readline-compatible version dispatching to vi-put-after or vi-put-before.
 func (rl *Shell) viPut() {
 	keys := rl.Keys.Caller()
+	if len(keys) == 0 {
+		return
+	}
 
 	switch keys[0] {
 	case 'P':
@@ -1221,7 +1236,7 @@ func (rl *Shell) viSelectInside() {
 	// the only that triggered this command, so check the second.
 	// Use the first key to know if inside/around is used.
 	keys := rl.Keys.Caller()
-	if keys[0] == 'i' {
+	if len(keys) > 0 && keys[0] == 'i' {
 		inside = true
 	}
 
@@ -1291,6 +1306,9 @@ func (rl *Shell) viSearch() {
 	var forward bool
 
 	keys := rl.Keys.Caller()
+	if len(keys) == 0 {
+		return
+	}
 
 	switch keys[0] {
 	case '/':
@@ -1311,6 +1329,9 @@ func (rl *Shell) viSearchAgain() {
 	var hint string
 
 	keys := rl.Keys.Caller()
+	if len(keys) == 0 {
+		return
+	}
 
 	switch keys[0] {
 	case 'n':
@@ -1346,6 +1367,9 @@ func (rl *Shell) viCharSearch() {
 	// we check the key triggering the command
 	// so set the specific behavior.
 	keys := rl.Keys.Caller()
+	if len(keys) == 0 {
+		return
+	}
 
 	switch keys[0] {
 	case 'F':
